@@ -45,7 +45,7 @@ Your task: produce ONE source change to the library (non-test .go files in the w
   (3) the change looks like something a real maintainer could plausibly commit (a refactor, an "optimisation", a small feature, a boundary tweak, a cache, a mis-merged fix) - not a sabotage comment or an obviously dead `if x == 12345` trap,
   (4) the breakage needs something SPECIFIC to manifest - a particular multi-step sequence of operations, an unusual input or boundary value, a particular interleaving of goroutines, two cooperating code sites that each look fine alone, a particular processor state, etc. Do NOT produce a change that ordinary use or a casual smoke test would expose at once. Prefer subtle over blatant, but it must be a genuine violation of the property as stated (not of something the property does not say), for inputs inside the property's quantifier, reachable through the public API.
 
-IMPORTANT: other contributors have already produced the changes listed below for this property. Yours must be of a clearly DIFFERENT kind from all of them - a different code site, a different mechanism and a different trigger. Assume that a strong automated runtime checker already exists and catches every one of the listed changes: it sweeps inputs exhaustively or randomly against independent oracles, keeps objects alive across calls, interleaves handles, reuses caller buffers, runs things concurrently from a cold start and in different first-use orders, runs objects past 65,536 operations, mixes in other parts of the library and out-of-domain calls before and between the calls it judges, uses callbacks that act on the object, repeats everything in a 32-bit (GOARCH=386) build and under an aggressive garbage collector, copies objects by value and re-wires them to other collaborators, places programs in every kind of memory of the emulated console, takes error paths (failing writers, recovered panics) before the calls it judges, plants well-formed structure in the parts of inputs it does not judge, calls every public method (Finalize, EaDump, Reset, SetFlags, ...) in the middle of its histories, not only at the end, tests the library's default build as well as the build with its `verif` tag, uses the library during package initialisation, lets callbacks call the object's read-only methods, starts counters and bases at the limits of their integer types, chooses payloads and field contents equal to what is already stored, varies the concrete types behind interfaces (bufio.Writer loggers, devices with their own Size()), generates canonical instruction idioms (load-then-transfer) as well as random instructions, compares the order of bus writes within a step, drives more than 2^32 cycles through one call and more than 2^32 calls through one process, maps the bus with the library's own device models, varies file names, label spellings, public fields such as HeaderOffset, the machine's processor count (GOMAXPROCS), uses numeric operands that equal label addresses, devices that look identical, re-observes every level of nested clones, runs a portable probe on a third target (js/wasm), drives access patterns (runs then jumps) instead of single calls, uses slices with spare capacity as targets, label names that collide under common hash functions, UTF-8 text, devices and loggers built by embedding or as function adapters, starts processes with the library's error paths, recurses thousands of frames deep, delivers interrupts between instructions against its model, keeps stepping after STP, reads the library's own source to discover every environment variable and custom build tag and re-runs itself under each configuration it finds, compares the order of bus reads (not only writes) of every step, pre-fills targets and checks the bytes a call should NOT have touched, uses devices that call back into the bus from their own Read/Write, takes snapshots of objects inside their own handlers, walks addresses downward as well as upward across every boundary, defines labels before bases, and emits lines of tens of kilobytes. Aim for a violation such a checker would STILL be unlikely to run into: think about which dimension of the input space, history or environment a checker built from the list below would still hold constant. It must still be a genuine violation of the property as stated.
+IMPORTANT: other contributors have already produced the changes listed below for this property. Yours must be of a clearly DIFFERENT kind from all of them - a different code site, a different mechanism and a different trigger. Assume that a strong automated runtime checker already exists and catches every one of the listed changes: it sweeps inputs exhaustively or randomly against independent oracles, keeps objects alive across calls, interleaves handles, reuses caller buffers, runs things concurrently from a cold start and in different first-use orders, runs objects past 65,536 operations, mixes in other parts of the library and out-of-domain calls before and between the calls it judges, uses callbacks that act on the object, repeats everything in a 32-bit (GOARCH=386) build and under an aggressive garbage collector, copies objects by value and re-wires them to other collaborators, places programs in every kind of memory of the emulated console, takes error paths (failing writers, recovered panics) before the calls it judges, plants well-formed structure in the parts of inputs it does not judge, calls every public method (Finalize, EaDump, Reset, SetFlags, ...) in the middle of its histories, not only at the end, tests the library's default build as well as the build with its `verif` tag, uses the library during package initialisation, lets callbacks call the object's read-only methods, starts counters and bases at the limits of their integer types, chooses payloads and field contents equal to what is already stored, varies the concrete types behind interfaces (bufio.Writer loggers, devices with their own Size()), generates canonical instruction idioms (load-then-transfer) as well as random instructions, compares the order of bus writes within a step, drives more than 2^32 cycles through one call and more than 2^32 calls through one process, maps the bus with the library's own device models, varies file names, label spellings, public fields such as HeaderOffset, the machine's processor count (GOMAXPROCS), uses numeric operands that equal label addresses, devices that look identical, re-observes every level of nested clones, runs a portable probe on a third target (js/wasm), drives access patterns (runs then jumps) instead of single calls, uses slices with spare capacity as targets, label names that collide under common hash functions, UTF-8 text, devices and loggers built by embedding or as function adapters, starts processes with the library's error paths, recurses thousands of frames deep, delivers interrupts between instructions against its model, keeps stepping after STP, reads the library's own source to discover every environment variable and custom build tag and re-runs itself under each configuration it finds, compares the order of bus reads (not only writes) of every step, pre-fills targets and checks the bytes a call should NOT have touched, uses devices that call back into the bus from their own Read/Write, takes snapshots of objects inside their own handlers, walks addresses downward as well as upward across every boundary, defines labels before bases, emits lines of tens of kilobytes, discovers methods that are new to it by reflection and reads their meaning from their names (mnemonic, mode suffix, signature), builds objects from struct literals as well as constructors and places them at odd offsets inside larger structs, uses images of 2 and 4 GiB, runs probe programs that link only one package of the library, confines processes to 1, 3, 5, 6, 7 or 12 processors, writes and reads every hardware-register address ($2000-$5FFF) through the CPUs and through the emulated console before judging anything else, executes every kind of memory-accessing instruction (block moves, pushes, read-modify-write, indirect, indexed across bank ends) against a model of the memory map, passes buffers that are shorter than or overlap what a call works on where that is legal, lets loggers' Reserve/Commit hooks and callbacks act on the machine or detach the logger, calls read-only methods on intermediate objects (clones before Append), and keeps the very first instances created in the process busy while others are judged. Aim for a violation such a checker would STILL be unlikely to run into: think about which dimension of the input space, history or environment a checker built from the list below would still hold constant. It must still be a genuine violation of the property as stated.
 {filed}
 
 Deliverables, all written into {out}:
